@@ -112,6 +112,13 @@ where
     // curve points outside the subgroup whose y has a zero component (sort decided by the other component alone);
     // they round-trip through the unchecked decoder only
     let n_sub = pts.len();
+    // alphabet points outside the subgroup (order 3 with x = 0, other small orders, l*r, full order), both roots
+    for np in C::points(&mut rng, 2, 4) {
+        if !np.in_subgroup && !np.p.is_inf() {
+            pts.push(c.neg(&np.p));
+            pts.push(np.p.clone());
+        }
+    }
     for (_, x, y) in C::tie_points() {
         pts.push(Pt::Aff(x.clone(), y.clone()));
         pts.push(Pt::Aff(x, y.neg()));
